@@ -238,6 +238,14 @@ impl ModuleContext {
     ///
     /// See [`shutdow_and_restart_in`](ModuleContext::shutdow_and_restart_in) for more information.
     pub fn shutdow_and_restart_at(&self, restart_at: SimTime) {
+        // A restart time in the past would only be rejected when the restart event is handed to
+        // the runtime (after the callback, outside the panic harness), aborting the whole
+        // simulation. Reject it here, inside the callback, like `schedule_at` / `send_at` do.
+        assert!(
+            restart_at >= SimTime::now(),
+            "cannot restart a module at {restart_at:?}, less than the current simulation time {:?}",
+            SimTime::now()
+        );
         *self.shutdown_task.write() = Some(Some(restart_at));
     }
 
